@@ -441,3 +441,19 @@ Proof.
     apply elem_of_list_fmap in Hin as (y & -> & Hyin). apply Hmem in Hyin as (q & Hq & Hsq).
     rewrite (wf_key m HW _ _ Hq). by apply rb_under.
 Qed.
+
+(* ... in every state whose keys are proper names - every reachable state (Memfs/Names.v) *)
+From RV Require Import Memfs.Names.
+
+Theorem copy_dir_fresh_reachable env m s d o sp dp db ddir r pd :
+  WF m → kinds_ok m → keys_ok m → cp_follow o = false → resolve env m s = inl sp → resolve env m d = inl dp →
+  m_ents m !! sp = Some r → real_dir r → dp = db :: ddir → m_ents m !! dp = None → m_ents m !! ddir = Some pd → real_dir pd →
+  ¬ sp `suffix_of` dp → (∀ q x, sp `suffix_of` q → m_ents m !! q = Some x → e_link x = false) →
+  ∃ m', copy_op env m s d o = Done (m', inl tt) ∧ WF m' ∧ kinds_ok m' ∧ m_cwd m' = m_cwd m ∧
+    (∀ j x, m_ents m !! (j ++ sp) = Some x → abs_nodes m' !! (j ++ dp) = Some (cnode m o sp dp x)) ∧
+    (∀ j, m_ents m !! (j ++ sp) = None → abs_nodes m' !! (j ++ dp) = None) ∧
+    (∀ k, ¬ dp `suffix_of` k → abs_nodes m' !! k = abs_nodes m !! k).
+Proof.
+  intros HW HK Hkeys Hnf Hs Hd Hr Hrr Hdp Hdpn Hpd Hpdr Hnotin Hnolink.
+  apply (copy_dir_fresh env m s d o sp dp db ddir r pd); try done. intros q _ Hq. by apply Hkeys.
+Qed.
